@@ -63,6 +63,7 @@ struct Spec {
     vis_cos: bool,
     vis_thr: f32,
     stc: Vec<(usize, f32)>, // spatio-temporal constraints (epoch delta, max distance in 2r); empty = none
+    ops: Vec<String>,       // C03 runner: operation history (see run_c03); empty for the call-based runners
     grp: Vec<usize>,        // C15 runner: sizes of the batches (consecutive calls, distinct scenes); empty = one call per batch
     calls: Vec<(u64, Vec<Det>)>,
 }
@@ -108,7 +109,7 @@ impl Spec {
             })
             .collect();
         format!(
-            "k={} trk={} shards={} hist={} idle={} maxobs={} minlen={} votes={} quse={} qcol={} minarea={} ownuse={} owncol={} pos={} minconf={} vis={}:{} stc={} grp={} calls={}",
+            "k={} trk={} shards={} hist={} idle={} maxobs={} minlen={} votes={} quse={} qcol={} minarea={} ownuse={} owncol={} pos={} minconf={} vis={}:{} stc={} grp={} ops={} calls={}",
             self.k,
             self.trk,
             self.shards,
@@ -131,6 +132,7 @@ impl Spec {
             f32b(self.vis_thr),
             if self.stc.is_empty() { "-".to_string() } else { self.stc.iter().map(|(g, l)| format!("{}:{}", g, f32b(*l))).collect::<Vec<_>>().join(",") },
             if self.grp.is_empty() { "-".to_string() } else { self.grp.iter().map(|g| g.to_string()).collect::<Vec<_>>().join(",") },
+            if self.ops.is_empty() { "-".to_string() } else { self.ops.join(";") },
             calls.join(";")
         )
     }
@@ -145,7 +147,7 @@ impl Spec {
         let fb = |s: &str| f32::from_bits(s.parse::<u32>().unwrap());
         let g = |k: &str| *m.get(k).unwrap_or_else(|| panic!("missing {}", k));
         let mut calls = vec![];
-        for c in g("calls").split(';').filter(|x| !x.is_empty()) {
+        for c in m.get("calls").copied().unwrap_or("").split(';').filter(|x| !x.is_empty()) {
             let (s, ds) = c.split_once('@').unwrap();
             let mut dets = vec![];
             for d in ds.split('|').filter(|x| !x.is_empty()) {
@@ -188,6 +190,11 @@ impl Spec {
                 Some(x) if *x == "-" => vec![],
                 Some(x) => x.split(',').map(|e| { let (g, l) = e.split_once(':').unwrap(); (g.parse().unwrap(), fb(l)) }).collect(),
             },
+            ops: match m.get("ops") {
+                None => vec![],
+                Some(x) if *x == "-" => vec![],
+                Some(x) => x.split(';').filter(|e| !e.is_empty()).map(|e| e.to_string()).collect(),
+            },
             grp: match m.get("grp") {
                 None => vec![],
                 Some(x) if *x == "-" => vec![],
@@ -227,6 +234,45 @@ impl Spec {
             .visual_minimal_own_area_percentage_use(self.ownuse)
             .visual_minimal_own_area_percentage_collect(self.owncol)
     }
+}
+
+fn parse_dets(ds: &str) -> Vec<Det> {
+    let fb = |s: &str| f32::from_bits(s.parse::<u32>().unwrap());
+    let mut dets = vec![];
+    for d in ds.split('|').filter(|x| !x.is_empty()) {
+        let p: Vec<&str> = d.split(',').collect();
+        dets.push(Det {
+            uid: p[0].parse().unwrap(),
+            q: if p[1] == "n" { None } else { Some(fb(p[1])) },
+            l: fb(p[2]),
+            t: fb(p[3]),
+            w: fb(p[4]),
+            h: fb(p[5]),
+            feat: if p[6] == "-" { None } else { Some(p[6].split('/').map(fb).collect()) },
+        });
+    }
+    dets
+}
+
+fn dets_text(ds: &[Det]) -> String {
+    ds.iter()
+        .map(|d| {
+            format!(
+                "{},{},{},{},{},{},{}",
+                d.uid,
+                d.q.map(f32b).unwrap_or_else(|| "n".into()),
+                f32b(d.l),
+                f32b(d.t),
+                f32b(d.w),
+                f32b(d.h),
+                match &d.feat {
+                    None => "-".to_string(),
+                    Some(v) => v.iter().map(|x| f32b(*x)).collect::<Vec<_>>().join("/"),
+                }
+            )
+        })
+        .collect::<Vec<_>>()
+        .join("|")
 }
 
 fn bbox_of(d: &Det) -> Universal2DBox {
@@ -745,6 +791,7 @@ fn base_spec(k: usize, rng: &mut Rng) -> Spec {
         vis_cos: false,
         vis_thr: f32::MAX,
         stc: vec![],
+        ops: vec![],
         grp: vec![],
         calls: vec![],
     }
@@ -1068,8 +1115,22 @@ fn gen_c04(k: usize, rng: &mut Rng) -> Spec {
     }
     let mut step: Vec<usize> = vec![0; nscenes];
     let mut uid: u32 = 1;
+    // EMPTY frames (VisualSort only; the batch tracker cannot submit an empty scene): an empty frame advances its scene's
+    // epoch whatever the other scenes hold. Leading ones come before a scene's first detection (in random scene order, so
+    // that some arrive while other scenes already have tracks and some while the tracker is still empty), others in between
+    let empties = s.trk == "vs";
+    let mut lead: Vec<usize> = (0..nscenes).map(|_| if empties && rng.chance(1, 2) { 1 + rng.below(3) as usize } else { 0 }).collect();
     for _ in 0..ncalls {
         let scene = rng.below(nscenes as u64) as usize;
+        if lead[scene] > 0 {
+            lead[scene] -= 1;
+            s.calls.push((scene as u64, vec![]));
+            continue;
+        }
+        if empties && rng.chance(1, 8) {
+            s.calls.push((scene as u64, vec![]));
+            continue;
+        }
         let i = step[scene];
         step[scene] += 1;
         let mut dets = vec![];
@@ -1257,6 +1318,247 @@ fn run_c15(spec: &Spec) {
     println!("end {}", k);
 }
 
+// ------------------------------------------------------------------------------------------------------------
+// C03: track lifecycle on the visual trackers. Operation history (spec field ops=, ';' separated):
+//   P<scene>@<dets>  predict (dets may be empty for VisualSort)     S<scene>:<n>  skip_epochs_for_scene
+//   W  wasted()      I<scene>  idle_tracks_with_scene      C  clear_wasted      A<p>  set_auto_waste(p)
+//   E<scene>  current_epoch_with_scene      a  active_shard_stats      w  wasted_shard_stats
+// Prints after every operation:
+//   op k i <op head> res=<result> main=<id:scene:last epoch:length,...> wst=<...>      (physical content of the two stores)
+fn store_dump(ts: &[VTrack]) -> String {
+    let v: Vec<String> = ts
+        .iter()
+        .map(|t| {
+            let a = t.get_attributes();
+            format!("{}:{}:{}:{}", t.get_track_id(), a.scene_id, a.last_updated_epoch, a.track_length)
+        })
+        .collect();
+    if v.is_empty() {
+        "-".into()
+    } else {
+        v.join(",")
+    }
+}
+
+fn recs_text(recs: &[SortTrack]) -> String {
+    if recs.is_empty() {
+        "-".into()
+    } else {
+        recs.iter().map(rec_str).collect::<Vec<_>>().join(",")
+    }
+}
+
+fn run_c03(spec: &Spec) {
+    println!("spec {}", spec.to_line());
+    std::panic::set_hook(Box::new(|info| {
+        let loc = info.location().map(|l| format!("{}:{}", l.file(), l.line())).unwrap_or_else(|| "?".into());
+        let mut g = PANIC_LOC.lock().unwrap();
+        if g.is_none() {
+            *g = Some(loc.replace(' ', "_"));
+        }
+    }));
+    let k = spec.k;
+    let opts = spec.options();
+    let mut tracker = if spec.trk == "bvs" {
+        Tracker::Bvs(BatchVisualSort::new(spec.shards, 1 + (spec.k % 2), &opts))
+    } else {
+        Tracker::Vs(VisualSort::new(spec.shards, &opts))
+    };
+    for (i, op) in spec.ops.iter().enumerate() {
+        let head = op.chars().next().unwrap();
+        let rest = &op[1..];
+        let res: Option<String> = match head {
+            'P' => {
+                let (sc, ds) = rest.split_once('@').unwrap();
+                let scene: u64 = sc.parse().unwrap();
+                let dets = parse_dets(ds);
+                let boxes: Vec<Universal2DBox> = dets.iter().map(bbox_of).collect();
+                let feats: Vec<Option<Vec<f32>>> = dets.iter().map(|d| d.feat.clone()).collect();
+                let obs: Vec<VisualSortObservation> = dets
+                    .iter()
+                    .enumerate()
+                    .map(|(j, d)| VisualSortObservation::new(feats[j].as_deref(), d.q, boxes[j].clone(), Some(d.uid as i64)))
+                    .collect();
+                match &mut tracker {
+                    Tracker::Vs(t) => guarded(|| t.predict_with_scene(scene, &obs)).map(|r| recs_text(&r)),
+                    Tracker::Bvs(t) => {
+                        if obs.is_empty() {
+                            Some("-".into())
+                        } else {
+                            let (mut batch, res) = PredictionBatchRequest::<VisualSortObservation>::new();
+                            for o in &obs {
+                                batch.add(scene, o.clone());
+                            }
+                            if guarded(|| t.predict(batch)).is_none() {
+                                None
+                            } else {
+                                let t0 = std::time::Instant::now();
+                                let mut out = None;
+                                loop {
+                                    if res.ready() {
+                                        let (_, tracks) = res.get();
+                                        out = Some(recs_text(&tracks));
+                                        break;
+                                    } else if t0.elapsed().as_secs() > 20 {
+                                        break;
+                                    }
+                                    std::thread::sleep(std::time::Duration::from_millis(1));
+                                }
+                                out
+                            }
+                        }
+                    }
+                }
+            }
+            'S' => {
+                let (sc, n) = rest.split_once(':').unwrap();
+                let (scene, n): (u64, usize) = (sc.parse().unwrap(), n.parse().unwrap());
+                guarded(|| match &mut tracker {
+                    Tracker::Vs(t) => t.skip_epochs_for_scene(scene, n),
+                    Tracker::Bvs(t) => t.skip_epochs_for_scene(scene, n),
+                })
+                .map(|_| "-".to_string())
+            }
+            'W' => guarded(|| match &mut tracker {
+                Tracker::Vs(t) => t.wasted(),
+                Tracker::Bvs(t) => t.wasted(),
+            })
+            .map(|mut ws| {
+                ws.sort_by_key(|t| t.get_track_id());
+                let v: Vec<String> = ws
+                    .into_iter()
+                    .map(|t| {
+                        let w = WastedVisualSortTrack::from(t);
+                        format!("{}:{}:{}:{}:{}", w.id, w.length, w.epoch, w.scene_id, w.observed_boxes.len())
+                    })
+                    .collect();
+                if v.is_empty() {
+                    "-".into()
+                } else {
+                    v.join(",")
+                }
+            }),
+            'I' => {
+                let scene: u64 = rest.parse().unwrap();
+                guarded(|| match &mut tracker {
+                    Tracker::Vs(t) => t.idle_tracks_with_scene(scene),
+                    Tracker::Bvs(t) => t.idle_tracks_with_scene(scene),
+                })
+                .map(|mut r| {
+                    r.sort_by_key(|x| x.id);
+                    recs_text(&r)
+                })
+            }
+            'C' => guarded(|| match &mut tracker {
+                Tracker::Vs(t) => t.clear_wasted(),
+                Tracker::Bvs(t) => t.clear_wasted(),
+            })
+            .map(|_| "-".to_string()),
+            'A' => {
+                let p: usize = rest.parse().unwrap();
+                guarded(|| match &mut tracker {
+                    Tracker::Vs(t) => t.set_auto_waste(p),
+                    Tracker::Bvs(t) => t.set_auto_waste(p),
+                })
+                .map(|_| "-".to_string())
+            }
+            'E' => {
+                let scene: u64 = rest.parse().unwrap();
+                guarded(|| tracker.epoch(scene)).map(|e| e.to_string())
+            }
+            'a' => guarded(|| match &tracker {
+                Tracker::Vs(t) => t.active_shard_stats(),
+                Tracker::Bvs(t) => t.active_shard_stats(),
+            })
+            .map(|v| v.iter().map(|x| x.to_string()).collect::<Vec<_>>().join(",")),
+            'w' => guarded(|| match &tracker {
+                Tracker::Vs(t) => t.wasted_shard_stats(),
+                Tracker::Bvs(t) => t.wasted_shard_stats(),
+            })
+            .map(|v| v.iter().map(|x| x.to_string()).collect::<Vec<_>>().join(",")),
+            _ => Some("?".into()),
+        };
+        let ophead = if head == 'P' { format!("P{}", rest.split_once('@').unwrap().0) } else { op.clone() };
+        match res {
+            None => {
+                println!("op {} {} {} res=PANIC@{} main=- wst=-", k, i, ophead, panic_loc());
+                break;
+            }
+            Some(r) => {
+                let main = tracker.tracks(spec.shards);
+                let wst = match &tracker {
+                    Tracker::Vs(t) => all_vtracks(&t.get_wasted_store(), spec.shards),
+                    Tracker::Bvs(t) => all_vtracks(&t.get_wasted_store(), spec.shards),
+                };
+                println!("op {} {} {} res={} main={} wst={}", k, i, ophead, r, store_dump(&main), store_dump(&wst));
+            }
+        }
+    }
+    quiet_panics();
+    println!("end {}", k);
+}
+
+fn gen_c03(k: usize, rng: &mut Rng) -> Spec {
+    let mut s = base_spec(k, rng);
+    s.trk = if rng.chance(1, 3) { "bvs".into() } else { "vs".into() };
+    s.shards = 1 + rng.below(3) as usize;
+    s.idle = rng.below(4) as usize;
+    s.hist = 1 + rng.below(3) as usize;
+    s.maxobs = *rng.pick(&[1usize, 2, 3]);
+    s.minlen = 1;
+    s.votes = 1;
+    s.quse = 0.0;
+    s.qcol = 0.0;
+    s.minarea = 0.0;
+    let nscenes = 1 + rng.below(3);
+    let nobj = 1 + rng.below(3) as usize;
+    let pfeat = *rng.pick(&[100u64, 70, 0]);
+    let nops = 12 + rng.below(40) as usize;
+    let mut uid: u32 = 1;
+    let batch = s.trk == "bvs";
+    for _ in 0..nops {
+        let scene = rng.below(nscenes);
+        let r = rng.below(100);
+        let op = if r < 50 {
+            let mut dets = vec![];
+            let empty = !batch && rng.chance(1, 4);
+            if !empty {
+                for ob in 0..nobj {
+                    if (rng.chance(1, 5) && nobj > 1) || uid >= 2040 {
+                        continue;
+                    }
+                    let feat = if rng.below(100) < pfeat { Some(vec![ob as f32 + 1.0, rng.dyadic(-4, 4, 3), uid as f32 / 64.0]) } else { None };
+                    dets.push(Det { uid, q: Some(0.75), l: 10.0 + ob as f32 * 50.0 + rng.dyadic(0, 4, 2), t: 10.0, w: 20.0, h: 30.0, feat });
+                    uid += 1;
+                }
+            }
+            if batch && dets.is_empty() {
+                format!("E{}", scene)
+            } else {
+                format!("P{}@{}", scene, dets_text(&dets))
+            }
+        } else if r < 58 {
+            format!("S{}:{}", scene, 1 + rng.below(4))
+        } else if r < 66 {
+            "W".to_string()
+        } else if r < 76 {
+            format!("I{}", scene)
+        } else if r < 80 {
+            "C".to_string()
+        } else if r < 85 {
+            format!("A{}", rng.pick(&[0usize, 1, 2, 100]))
+        } else if r < 93 {
+            format!("E{}", scene)
+        } else if r < 97 {
+            "a".to_string()
+        } else {
+            "w".to_string()
+        };
+        s.ops.push(op);
+    }
+    s
+}
+
 /// C15 generator: batches of 1-5 scenes x 1-6 axis-aligned boxes with partial overlaps (shares 1, ~0.75, ~0.5, 0, ...).
 fn gen_c15(k: usize, rng: &mut Rng) -> Spec {
     let mut s = base_spec(k, rng);
@@ -1356,6 +1658,24 @@ fn main() {
                 let mut rng = Rng::new(a.seed.wrapping_mul(15_000_017).wrapping_add(k as u64));
                 let s = gen_c15(k, &mut rng);
                 run_c15(&s);
+            }
+        }
+        "c03" => {
+            for k in 0..a.n {
+                let mut rng = Rng::new(a.seed.wrapping_mul(3_000_029).wrapping_add(k as u64));
+                let s = gen_c03(k, &mut rng);
+                run_c03(&s);
+            }
+        }
+        "replay03" => {
+            let txt = std::fs::read_to_string(a.file.expect("--file")).unwrap();
+            for line in txt.lines() {
+                let line = line.trim();
+                if line.is_empty() {
+                    continue;
+                }
+                let line = line.strip_prefix("spec ").unwrap_or(line);
+                run_c03(&Spec::parse(line));
             }
         }
         "replay15" => {
